@@ -106,6 +106,9 @@ def run(ctx, chk):
                 body_start = r["talker"].start
                 # (peeked or consumed: what matters is the range [start+1, first '*'))
                 peeks = [e for e in p.events if e[0] in ("gp", "g") and e[1] == "take_until" and e[2] == b"*" and e[4] == body_start]
+                # the same range written as an unbounded run of non-'*' bytes that is followed by a '*'
+                peeks += [e for e in p.events if e[0] in ("gp", "g") and e[1] == "run" and e[2] == (((0, 41), (43, 255)), 0, None) and e[4] == body_start
+                          and p.st.aset(("byte", "L", e[5].key())) == IntSet.of(42)]
                 okk = len(peeks) == 1 and slk == ("slice", "L", body_start.key(), (peeks[0][5] - body_start).key())
                 chk.ob(okk, "C02/operand/slice/%r" % (slk[2:],), "checksum [%s] is computed over %r, not the bytes from just after the start delimiter to the first '*'" % (cfg, slk))
                 hx = ("hexval", "L", r["checksum"].start.key(), 0, (1 << 32) - 1)
